@@ -1,9 +1,11 @@
 import BadgerModel.Driver.Loop
-/-! `bmd_wm <engine>`: line-protocol driver (see CONVENTIONS.md). -/
+import BadgerModel.Driver.Wm
+/-! `bmd_wm <engine>`: line-protocol driver (see CONVENTIONS.md). Engines: `watermark`. -/
 open Badger.Driver
 
 def main (args : List String) : IO UInt32 := do
   let stdin ← IO.getStdin
   let stdout ← IO.getStdout
   match args with
-  | _ => IO.eprintln "usage: bmd_wm <engine>"; return 2
+  | ["watermark"] => statefulLoop stdin stdout wmStep Badger.WM.init; return 0
+  | _ => IO.eprintln "usage: bmd_wm <watermark|oracle|txn>"; return 2
